@@ -358,3 +358,74 @@ def timed_all_posted(sc, sysm):
   n = sc.info["times"]
   pend = sc.info["pending"]
   return lambda B, st: B.and_(B.eq(st["g.posts_by_new"], B.const(n)), B.eq(st["g.dispatched"], B.const(n + pend)))
+
+
+# ---- fabric_delivery scenario (C06 / C08 under every interleaving) -----------------------------------------------------------------------
+def _contents_is(B, st, q, items):
+  conds = [B.eq(st["%s.len" % q], B.const(len(items)))]
+  for i, x in enumerate(items):
+    conds.append(B.eq(st["%s.c%d" % (q, i)], B.const(x)))
+  return B.and_(*conds)
+
+
+def fabric_allowed(sc):
+  """allowed final contents per subscriber queue, as lists of event record numbers (from the property statements: every publication made after
+  a subscription returned is delivered once per kind; one made before it may or may not be; equal priorities keep publish order)"""
+  import itertools
+  e = sc.info["events"]
+  script = sc.info["script"]
+  if script == "late-subscriber":
+    return {"q0": [[e[0], e[1]]], "q1": [[e[1]], [e[0], e[1]]]}
+  if script == "resubscribe":
+    return {"q0": [[e[0], e[1]]], "q1": [[e[0], e[1]]]}
+  if script == "priorities":
+    ok = [list(p) for p in itertools.permutations([e[3], e[0], e[1]]) if p.index(e[0]) < p.index(e[1])]
+    return {"q0": ok, "q1": [[]]}
+  if script == "two-kinds":
+    # q0: fifo subscription from the start, lifo subscription added before the second publication; q1: lifo from the start
+    ok0 = []
+    for extra in ([], [e[0]]):                 # the first publication may still reach the late lifo subscription
+      base = [e[0], e[1], e[1]] + extra
+      for p in set(itertools.permutations(base)):
+        p = list(p)
+        # per delivery thread the order is publish order: the fifo copies e0 < e1, and the lifo copies likewise
+        if p.index(e[0]) < len(p) - 1 - p[::-1].index(e[1]):
+          ok0.append(p)
+    return {"q0": ok0, "q1": [[e[0], e[1]]]}
+  raise KeyError(script)
+
+
+def fabric_quiescent_wrong(sc, sysm):
+  allowed = fabric_allowed(sc)
+  done = lambda B, st: at_any(B, st, 0, done_nodes(sysm, 0))
+
+  def f(B, st):
+    good = []
+    for q, alts in allowed.items():
+      good.append(B.or_(*[_contents_is(B, st, q, a) for a in alts]))
+    return B.and_(done(B, st), B.not_(B.and_(*good)))
+  return f
+
+
+def fabric_all_delivered(sc, sysm):
+  allowed = fabric_allowed(sc)
+  done = lambda B, st: at_any(B, st, 0, done_nodes(sysm, 0))
+
+  def f(B, st):
+    good = [B.or_(*[_contents_is(B, st, q, a) for a in alts]) for q, alts in allowed.items()]
+    return B.and_(done(B, st), B.eq(st["fifo_queue.len"], B.const(0)), *good)
+  return f
+
+
+def fabric_overdelivery(sc, sysm):
+  """more copies in a queue than any allowed outcome has (a duplicate delivery), at any time; or a crash"""
+  allowed = fabric_allowed(sc)
+  crash = any_crash(sc, sysm)
+
+  def f(B, st):
+    bad = [crash(B, st)]
+    for q, alts in allowed.items():
+      mx = max(len(a) for a in alts)
+      bad.append(B.ult(B.const(mx), st["%s.len" % q]))
+    return B.or_(*bad)
+  return f
